@@ -146,7 +146,7 @@ def decoder_kind(prog, expr, mod, cls, env):
             return 'from_string', ast.unparse(f.value)
         if isinstance(f, ast.Attribute) and f.attr == 'type_from_str':
             return 'type_from_str', None
-        if isinstance(f, ast.Attribute) and f.attr == 'split':
+        if isinstance(f, ast.Attribute) and f.attr in ('split', 'rsplit'):
             return 'split', None
         if isinstance(f, ast.Name):
             return 'ctor', f.id
@@ -348,6 +348,22 @@ def run(prog, rep):
             elif enc == 'composite':
                 if dec not in ('split', 'raw'):
                     problem = f'composite encoding decoded with {dec}'
+                elif dec == 'split':
+                    # A + sep + B is read back by splitting: the split must be bounded to (parts - 1) separators, otherwise a
+                    # separator inside one of the values changes the number of parts
+                    def parts_of(e):
+                        if isinstance(e, ast.BinOp) and isinstance(e.op, ast.Add):
+                            return parts_of(e.left) + parts_of(e.right)
+                        return [] if isinstance(e, ast.Constant) else [e]
+                    nparts = len(parts_of(w['node'].value))
+                    splits = [c for c in ast.walk(r['expr']) if isinstance(c, ast.Call) and isinstance(c.func, ast.Attribute) and c.func.attr in ('split', 'rsplit')]
+                    for sc_ in splits:
+                        ms = kwarg(sc_, 'maxsplit') or (sc_.args[1] if len(sc_.args) > 1 else None)
+                        rep.instance('R3', f'{kind}: {kw}: {nparts} values joined, read back with {norm(sc_, 60)}')
+                        if not (isinstance(ms, ast.Constant) and ms.value == nparts - 1):
+                            problem = (f'{nparts} values are joined with a separator but split back without a bound of {nparts - 1}: a value that '
+                                       f'contains the separator (e.g. an image reference with a comma) makes the reader raise, so the element '
+                                       f'cannot be read back at all')
             else:
                 raise AnalysisError(f'{loc(mod, w["node"])}: unrecognised encoder shape {enc}')
             if problem:
@@ -634,6 +650,8 @@ MUTANTS = [
      'find': "            self.set_property('boot_script', value)", 'replace': "            self.set_property('bootscript', value)"},
     {'name': 'deep-key-renamed-on-writer', 'file': APGF, 'rule': 'R6', 'count': 2,
      'find': "                d['network_services'] = nss", 'replace': "                d['services'] = nss"},
+    {'name': 'composite-split-unbounded', 'file': APGF, 'rule': 'R3',
+     'find': "image_ref, image_type = d[ABCPropertyGraph.PROP_IMAGE_REF].rsplit(',', 1)", 'replace': "image_ref, image_type = d[ABCPropertyGraph.PROP_IMAGE_REF].split(',')"},
 ]
 TWINS = [
     {'name': 'map-rows-reordered', 'file': APGF,
